@@ -128,6 +128,7 @@ def run(ctx):
     if not ok:
         ctx.report("proof:" + str(failing), "theorem/dependency no longer checks: %s" % failing,
                    {"broken": failing, "log": log[-3000:]}, no_input=True)
+    stream_surface_probe(ctx)
     quick = ctx.tier == "quick"
     rng = ctx.rng
     shapes = [tuple(s) for n in (1, 2, 3) for s in itertools.product([False, True], repeat=n)]
@@ -368,6 +369,48 @@ def run(ctx):
             ctx.report("matlab-table:%s" % kind, "guards/assignments parsed from generated MATLAB %s base class of shape %s differ from "
                        "Model.ProtoSMCases.%s" % ("writer" if kind == "w" else "reader", ["S" if s else "V" for s in shp], tab),
                        {"shape": list(shp), "parsed": table, "broken": "correspondence " + tab}, no_input=True)
+
+
+SURFACE_ITEMS = [
+    "int32", "'int32?'", "[int32, string]", "[null, int32, string]", "!union {ca: int32, cb: string}", "!union {cn: null, ca: int32, cb: string}",
+    "!vector {items: int32}", "!vector {items: !union {ca: int32, cb: string}}", "!vector {items: int32, length: 2}", "'string*'",
+    "!array {items: float32}", "!array {items: !union {fa: int32, fb: float32}, dimensions: 2}", "'float32[]'", "'float32[2, 3]'",
+    "!map {keys: string, values: !union {ca: int32, cb: string}}", "'string->int32'", "Rs", "Es", "'Gs<int32>'",
+    "!generic {name: Gs, args: [!union {ca: int32, cb: string}]}", "'Rs?'", "As", "Au",
+]
+
+
+def stream_surface_probe(ctx):
+    """Whether a step is a stream is read from the MODEL SOURCE here (the `!stream` tag), for item types of every constructor and
+    spelling, and compared with the API the three generators emit: an end-of-stream call exists exactly for the stream steps."""
+    defs = ("Rs: !record\n  fields:\n    a: int32\n\nEs: !enum\n  values: [p, q]\n\nGs<T>: !record\n  fields:\n    v: T\n\n"
+            "As: !vector\n  items: !union {ca: int32, cb: string}\n\nAu: !union {ra: int32, rb: Rs}\n\n")
+    lines, want = ["Pz: !protocol", "  sequence:"], {}
+    for i, it in enumerate(SURFACE_ITEMS):
+        lines += ["    %s: !stream" % step_name(2 * i), "      items: %s" % it, "    %s: %s" % (step_name(2 * i + 1), it)]
+        want[step_name(2 * i)], want[step_name(2 * i + 1)] = True, False
+    pkg = Package("Sfx")
+    gp = genrun.GenPackage(ctx, pkg, "surface", ndjson=False, cpp=True, extra_yaml="matlab:\n  outputDir: ../matlab\n",
+                           model_text=defs + "\n".join(lines) + "\n")
+    if not gp.generate():
+        raise RuntimeError("yardl rejected the stream-surface package: " + gp.gen_out[-1500:])
+    py = open(os.path.join(gp.dir, "python", "sfx", "protocols.py")).read()
+    hdr = open(os.path.join(gp.dir, "cpp", "generated", "protocols.h")).read()
+    mw = open(os.path.join(gp.dir, "matlab", "+sfx", "PzWriterBase.m")).read()
+    mr = open(os.path.join(gp.dir, "matlab", "+sfx", "PzReaderBase.m")).read()
+    for st, is_stream in want.items():
+        item = SURFACE_ITEMS[(int(LET.index(st[1])) * 26 + LET.index(st[2])) // 2]
+        m = re.search(r"def write_%s\(self, value: ([^\n]*)\) -> None:" % st, py)
+        seen = {"python": bool(m and m.group(1).startswith("collections.abc.Iterable[")),
+                "c++": re.search(r"\bvoid End%s\(\);" % cap(st), hdr) is not None,
+                "matlab-writer": re.search(r"function end_%s\(self\)" % st, mw) is not None,
+                "matlab-reader": re.search(r"function more = has_%s\(self\)" % st, mr) is not None}
+        ctx.case(("surface", st, item), sample={"machine": "api-surface", "item_type": item, "declared_stream": is_stream, "generated": seen})
+        for lang, got in seen.items():
+            if got != is_stream:
+                ctx.report("stream-surface:%s" % lang, "step `%s` with item type `%s` is %s in the model but the generated %s API treats it as %s"
+                           % (st, item, "a stream" if is_stream else "a single value", lang, "a stream" if got else "a single value"),
+                           {"step": st, "item_type": item, "declared_stream": is_stream, "generated": seen, "model": defs + "\n".join(lines) + "\n"})
 
 
 def overflow_probe(ctx):
